@@ -324,6 +324,9 @@ def run(ctx):
     off = r7.family(oprog, r7.OFFT, "off")
     ctx.require(all(p in off for p in r7.PRODS), "ncoffsets: parser functions missing: %s" % [p for p in r7.PRODS if p not in off])
     r7.check_spec(ctx, "R7.spec", off, "ncoffsets", oprog, r7.OFFT)
+    from rules import r10type
+    ctx.rule("R10.typerange", "ncvalidator accepts an external type code exactly when the format version allows it")
+    r10type.check(ctx, ctx.need_fn(vprog, "val_get_nc_type"), "R10.typerange", "ncvalidator")
     check_sticky(ctx, vprog)
     dprog = ctx.program(names=["ncmpidiff.c", "cdfdiff.c"])
     total = 0
